@@ -304,9 +304,10 @@ def classify(mnem, intent):
     if modes is None:
         return ("reject", "unknown mnemonic")
     v = intent.get("value")
-
-    def mode_is(rec, *ms):
-        return rec["mode"] in ms
+    if f == "divzero":
+        return ("reject", "division by zero")
+    if f == "rel":
+        return ("open", "branch target")
 
     if f == "inh":
         if "INH" not in modes:
@@ -432,3 +433,138 @@ def check_statement_bytes(mnem, b, pc=0):
     if mnem not in rec["mnems"]:
         return None, "decodes as {} not {}".format("/".join(rec["mnems"]), mnem)
     return rec, None
+
+
+# --------------------------------------------------------------------------------------
+# operand text -> intent (DESIGN appendix D); used to decide which accepted texts MUST have been rejected
+
+import re as _re
+
+_IDENT = _re.compile(r"^[A-Za-z][A-Za-z0-9@]*$")
+_REGNAMES = {"A", "B", "D", "X", "Y", "U", "S", "PC", "CC", "DP", "PCR"}
+
+
+def parse_number(t):
+    if _re.match(r"^\d+$", t):
+        return int(t)
+    if _re.match(r"^-\d+$", t):
+        return int(t)
+    m = _re.match(r"^\$([0-9A-Fa-f]{1,4})$", t)
+    if m:
+        return int(m.group(1), 16)
+    m = _re.match(r"^%([01]{8}|[01]{16})$", t)
+    if m:
+        return int(m.group(1), 2)
+    m = _re.match(r"^'([A-Za-z0-9])$", t)
+    if m:
+        return ord(m.group(1))
+    return None
+
+
+def parse_term(t, symvals):
+    v = parse_number(t)
+    if v is not None:
+        return v
+    if _IDENT.match(t) and t not in _REGNAMES and t in symvals:
+        return symvals[t]
+    return None
+
+
+class DivZero(Exception):
+    pass
+
+
+def parse_expr(t, symvals):
+    """-> (value, nterms) or None; raises DivZero"""
+    v = parse_term(t, symvals)
+    if v is not None:
+        return v, 1
+    for i in range(1, len(t) - 1):
+        if t[i] in "+-*/":
+            a = parse_term(t[:i], symvals)
+            b = parse_term(t[i + 1:], symvals)
+            if a is not None and b is not None:
+                op = t[i]
+                if op == "+":
+                    return a + b, 2
+                if op == "-":
+                    return a - b, 2
+                if op == "*":
+                    return a * b, 2
+                if b == 0:
+                    raise DivZero()
+                q = abs(a) // abs(b)
+                return (q if (a >= 0) == (b >= 0) else -q), 2
+    return None
+
+
+def parse_operand(mnem, text, symvals):
+    """-> intent dict | None (not parseable under the documented grammar / form left open)"""
+    modes = MNEM.get(mnem)
+    if modes is None:
+        return None
+    try:
+        if "REGLIST" in modes:
+            regs = text.split(",")
+            if text and all(_IDENT.match(r) for r in regs):
+                return {"form": "reglist", "regs": regs}
+            return None
+        if "REGPAIR" in modes:
+            regs = text.split(",")
+            if len(regs) == 2 and all(_IDENT.match(r) for r in regs):
+                return {"form": "regpair", "regs": regs}
+            return None
+        if "REL8" in modes or "REL16" in modes:
+            e = parse_expr(text, symvals) if text else None
+            return {"form": "rel", "value": e[0], "nterms": e[1]} if e else None
+        if text == "":
+            return {"form": "inh"}
+        if text[0] == "#":
+            e = parse_expr(text[1:], symvals)
+            return {"form": "imm", "value": e[0], "nterms": e[1]} if e else None
+        if text[0] in "<>":
+            e = parse_expr(text[1:], symvals)
+            return {"form": "dir" if text[0] == "<" else "ext", "value": e[0], "nterms": e[1]} if e else None
+        ind = False
+        inner = text
+        if text[0] == "[":
+            if not text.endswith("]") or len(text) < 3:
+                return None
+            inner = text[1:-1]
+            ind = True
+            if "," not in inner:
+                e = parse_expr(inner, symvals)
+                return {"form": "extind", "value": e[0], "nterms": e[1]} if e else None
+        if "," in inner:
+            if inner.count(",") != 1:
+                return None
+            left, right = inner.split(",")
+            m = _re.match(r"^(--|-)?([A-Za-z][A-Za-z0-9]*)(\+\+|\+)?$", right)
+            if not m:
+                return None
+            pre, reg, post = m.group(1), m.group(2), m.group(3)
+            if pre and post:
+                return None
+            if pre or post:
+                if left != "":
+                    return None
+                sub = {"-": "dec1", "--": "dec2", "+": "inc1", "++": "inc2"}[pre or post]
+                return {"form": "idx", "sub": sub, "reg": reg, "indirect": ind}
+            if left == "":
+                if reg == "PCR":
+                    return None
+                return {"form": "idx", "sub": "zero", "reg": reg, "indirect": ind}
+            if left in ("A", "B", "D"):
+                if reg == "PCR":
+                    return None
+                return {"form": "idx", "sub": "acc", "acc": left, "reg": reg, "indirect": ind}
+            e = parse_expr(left, symvals)
+            if not e:
+                return None
+            if reg == "PCR":
+                return {"form": "pcr", "value": e[0], "nterms": e[1], "indirect": ind}
+            return {"form": "idx", "sub": "off", "reg": reg, "value": e[0], "nterms": e[1], "indirect": ind}
+        e = parse_expr(inner, symvals)
+        return {"form": "addr", "value": e[0], "nterms": e[1]} if e else None
+    except DivZero:
+        return {"form": "divzero"}
